@@ -113,7 +113,8 @@ class Run:
             elif op in ("min", "max"):
                 outcome = ("ok", getattr(s, op)(self.b(st["e"]), extra_constraints=extra, signed=st["signed"], **self.qkw))
             elif op == "solution":
-                outcome = ("ok", s.solution(self.b(st["e"]), st["v"], extra_constraints=extra, **self.qkw))
+                v_ = self.b(st["v"]) if isinstance(st["v"], list) else st["v"]  # (the value may be an expression too)
+                outcome = ("ok", s.solution(self.b(st["e"]), v_, extra_constraints=extra, **self.qkw))
             elif op in ("is_true", "is_false"):
                 outcome = ("ok", getattr(s, op)(self.b(st["e"]), extra_constraints=extra, **self.qkw))
             elif op == "simplify":
@@ -255,7 +256,7 @@ class Run:
                 w = bvsem.width(e)
                 if (val & ((1 << w) - 1)) not in a.values(e):
                     self.viol(st, f"{op}-infeasible-value", observed=val, feasible=sorted(a.values(e))[:40], note="solver holds an untranslatable constraint")
-        elif op == "solution":
+        elif op == "solution" and not isinstance(st["v"], list):
             e = st["e"]
             if val is True and symbolic(e):
                 if not sat or a.feasible(e, st["v"]) is False:
@@ -418,6 +419,21 @@ class Run:
                 key = (lambda v: bvsem.signed(v, w)) if st["signed"] else (lambda v: v)
                 if (op == "max" and key(got) < key(want)) or (op == "min" and key(got) > key(want)):
                     self.viol(st, f"approx-{op}-excludes-optimum", observed=val, expected=want, signed=st["signed"])
+            return
+        if op == "solution" and isinstance(st["v"], list):
+            # the value is an expression: feasible iff the constraints allow e == v
+            eqd = ["eq", st["e"], st["v"]]
+            if not bvsem.variables(eqd):
+                res.count("varfree_on_unsat_not_judged")
+                return
+            want = self.ans(lv, list(extra_d) + [eqd]).sat()
+            if want is None:
+                return
+            res.count("solution_with_expression_value_judged")
+            if exact and val != want:
+                self.viol(st, "solution-wrong", observed=val, expected=want, value_is_expression=True)
+            elif not exact and want and not val:
+                self.viol(st, "approx-solution-false-for-feasible", observed=val)
             return
         if op == "solution":
             if not sat:
